@@ -190,3 +190,84 @@ def eval_uniform(rec):
             bad("faces", "a face is not a regular polygon", ["regular_faces"])
             break
     return out, {}
+
+
+# ---- Family523 over Q(sqrt 5) (spec/Family523.tla) ------------------------------------------------------------------
+CFG_523 = ("SPECIFICATION Spec\nINVARIANT T1_Icosahedral\nINVARIANT T1_Corners523_Emit\nCHECK_DEADLOCK FALSE\nCONSTANTS\n"
+           " Dn = %d\n PA1 = %d\n PA2 = %d\n PC1 = %d\n PC2 = %d\n Params <- OnePoint\n")
+# (Dn, a = <<p, q>>, c = <<p, q>>): corners, edge midpoints and centre, rational interior points, points outside
+POINTS_523 = {
+    "corners": [(2, a, c) for a in ((2, 0), (5, -1)) for c in ((3, 1), (6, 0))],
+    "edges": [(4, a, c) for a in ((4, 0), (7, -1), (10, -2)) for c in ((6, 2), (9, 1), (12, 0)) if not (a in ((4, 0), (10, -2)) and c in ((6, 2), (12, 0)))],
+    "grid": [(8, (a, 0), (c, 0)) for a in (8, 9, 10, 11) for c in (21, 22, 23, 24)],
+    "outside": [(8, (7, 0), (22, 0)), (8, (12, 0), (22, 0)), (8, (9, 0), (20, 0)), (8, (9, 0), (25, 0)), (4, (11, -2), (9, 1)), (4, (7, -1), (5, 2))],
+}
+
+
+def emit_523(ctx, points):
+    """One TLC process per parameter point, eight at a time."""
+    from concurrent.futures import ThreadPoolExecutor
+
+    def one(pt):
+        dn, a, c = pt
+        return tlc.run("MC_Family523", CFG_523 % (dn, a[0], a[1] + 10, c[0], c[1] + 10), workers=1, timeout=900)
+    with ThreadPoolExecutor(max_workers=8) as ex:
+        results = list(ex.map(one, points))
+    recs = []
+    for pt, res in zip(points, results):
+        ctx.tlc(res, f"Family523 over Q(sqrt5): Dn={pt[0]} a={pt[1]} c={pt[2]} (T1_Icosahedral, T1_Corners523)")
+        if res.violated:
+            ctx.violation({"cls": "spec", "obs": res.violated, "tags": ["T1", "523"], "msg": "Family523.tla: " + res.violated},
+                          {"tlc": res.stdout[-2000:]})
+        recs += [r for r in res.records if r.get("k") == "family523"]
+    return recs
+
+
+def _q5(x, dn):
+    return (x[0] + x[1] * math.sqrt(5.0)) / dn
+
+
+def eval_family523(rec):
+    import numpy as np
+    import coxeter
+    from decimal import Decimal, getcontext
+    from fractions import Fraction
+    getcontext().prec = 60
+    r5 = Decimal(5).sqrt()
+    dn = rec["a"][1]
+    a = _q5(rec["a"][0], dn)
+    c = _q5(rec["c"][0], rec["c"][1])
+    out = []
+    tags = ["523", "indomain" if rec["indomain"] else "outside", "corner" if rec["corner"] else "interior",
+            "irrational" if rec["a"][0][1] or rec["c"][0][1] else "rational"]
+
+    def bad(obs, msg, extra=()):
+        out.append(({"cls": "Family523", "obs": obs, "tags": tags + list(extra), "msg": msg}, {"case": rec}))
+
+    def dec(x):
+        f = Fraction(x)
+        return Decimal(f.numerator) / Decimal(f.denominator)
+    # the doubles handed to get_shape may lie outside the (irrational) domain by a rounding error although the exact parameter is on it
+    lo_a, hi_a, lo_c, hi_c = Decimal(1), (Decimal(5) - r5) / 2, (Decimal(3) + r5) / 2, Decimal(3)
+    double_inside = lo_a <= dec(a) <= hi_a and lo_c <= dec(c) <= hi_c
+    try:
+        shape = coxeter.families.Family523.get_shape(a, c)
+        exc = None
+    except Exception as e:
+        shape, exc = None, e
+    if not rec["indomain"]:
+        if not isinstance(exc, ValueError):
+            bad("get_shape", f"a={a!r}, c={c!r} outside the documented domain: expected ValueError, got "
+                f"{type(exc).__name__ if exc else 'a shape'}", ["outside_accepted" if exc is None else "wrong_exception"])
+        return out, {}
+    if exc is not None:
+        if isinstance(exc, ValueError) and not double_inside:
+            return out, {"unclear": 1}
+        bad("get_shape", f"a={a!r}, c={c!r} in the domain: raised {type(exc).__name__}: {exc}", ["valid_rejected"])
+        return out, {}
+    exact = np.array([[_q5(v[0], v[3]), _q5(v[1], v[3]), _q5(v[2], v[3])] for v in rec["verts"]], dtype=float)
+    got = np.asarray(shape.vertices, dtype=float)
+    if type(shape).__name__ != "ConvexPolyhedron" or not match_sets(exact, got, 1e-9 * 4):
+        bad("get_shape", f"a={a!r}, c={c!r}: returned {len(got)} vertices that are not the {len(exact)} exact vertices of the "
+            "half-space intersection over Q(sqrt5)", ["different_shape", "nv_exact=%d" % len(exact), "nv_got=%d" % len(got)])
+    return out, {}
